@@ -42,6 +42,8 @@ type Engine struct {
 	units    map[*types.Func]*FuncUnit
 	decls    map[*types.Func]*declInfo
 	ghosts   map[*types.Func]*ghostInfo
+	ghostVars map[*types.Var]bool
+	noEffectRe []*regexp.Regexp
 	lemmaPos map[*Lemma]*declInfo
 	typeTags map[string]int
 	mu       sync.Mutex
@@ -64,12 +66,36 @@ type Engine struct {
 func newEngine() *Engine {
 	return &Engine{byPath: map[string]*packages.Package{}, specs: map[string]*PkgSpec{}, specDirs: map[string]*PkgSpec{},
 		units: map[*types.Func]*FuncUnit{}, decls: map[*types.Func]*declInfo{}, ghosts: map[*types.Func]*ghostInfo{},
-		lemmaPos: map[*Lemma]*declInfo{}, typeTags: map[string]int{}, parallel: 12, timeout: 10, maxVC: 4 << 20,
+		lemmaPos: map[*Lemma]*declInfo{}, ghostVars: map[*types.Var]bool{}, typeTags: map[string]int{}, parallel: 12, timeout: 10, maxVC: 4 << 20,
 		mirrorSrc: map[string]string{}}
 }
 
 const contractFileName = "contracts_verif.go"
 const preludeFileName = "zz_govc_prelude_verif.go"
+
+// loadNoEffect reads the list of calls dropped by the extraction (events,
+// logging, formatting): one regular expression on the full function name per line.
+func (eng *Engine) loadNoEffect(path string) error {
+	data, err := os.ReadFile(path)
+	if err != nil {
+		if os.IsNotExist(err) {
+			return nil
+		}
+		return err
+	}
+	for _, line := range strings.Split(string(data), "\n") {
+		line = strings.TrimSpace(line)
+		if line == "" || strings.HasPrefix(line, "#") {
+			continue
+		}
+		re, err := regexp.Compile(line)
+		if err != nil {
+			return fmt.Errorf("%s: %v", path, err)
+		}
+		eng.noEffectRe = append(eng.noEffectRe, re)
+	}
+	return nil
+}
 
 // scanContracts parses every contract file under contractsDir.
 func (eng *Engine) scanContracts() error {
@@ -187,6 +213,11 @@ func (eng *Engine) indexPackage(p *packages.Package, ps *PkgSpec) {
 	lemmaByName := map[string]*Lemma{}
 	for _, l := range ps.Lemmas {
 		lemmaByName["gh_lemma_"+l.Name] = l
+	}
+	for _, g := range ps.GhostVars {
+		if v, ok := p.Types.Scope().Lookup(g.Name).(*types.Var); ok {
+			eng.ghostVars[v] = true
+		}
 	}
 	byKey := map[string]*FuncUnit{}
 	for _, f := range p.Syntax {
@@ -409,6 +440,11 @@ func (eng *Engine) noEffect(fn *types.Func) bool {
 	}
 	path := fn.Pkg().Path()
 	full := fn.FullName()
+	for _, re := range eng.noEffectRe {
+		if re.MatchString(full) {
+			return true
+		}
+	}
 	switch {
 	case strings.HasSuffix(path, "oasis-core/go/common/logging"):
 		return true
